@@ -96,6 +96,22 @@ class Lock:
         self.fh.close()
 
 
+
+def tricky_file(d, name, content, decoy=b"\xd8\x6bdecoy-" * 5):
+    """Write `content` where the operating system finds it under a path that goes through a symbolic link to a directory and back up:
+    <d>/_t/l/../<name> with l -> real/sub is the file <d>/_t/real/<name>.  <d>/_t/<name> — what collapsing ".." textually gives — holds
+    a decoy.  Returns the path to hand to the tool: how a file is NAMED is not an input, only its content is."""
+    t = os.path.join(d, "_t")
+    os.makedirs(os.path.join(t, "real", "sub"), exist_ok=True)
+    link = os.path.join(t, "l")
+    if not os.path.islink(link):
+        os.symlink(os.path.join("real", "sub"), link)
+    with open(os.path.join(t, name), "wb") as fh:
+        fh.write(decoy)
+    with open(os.path.join(t, "real", name), "wb") as fh:
+        fh.write(content)
+    return os.path.join(link, "..", name)
+
 def closure_sources(vfile):
     """.v files (relative to coq/) in the dependency closure of vfile, by following `From Verif Require` lines."""
     seen, todo = [], [vfile]
